@@ -399,3 +399,283 @@ End Join.
 (* ------------------------------------------------------------------ copy / pickle *)
 Lemma copy_identity p : apply_op OCopy p = Ok p /\ apply_op OPickle p = Ok p.
 Proof. split; reflexivity. Qed.
+
+(* ------------------------------------------------------------------ the embedding of Model/Pipe.v *)
+Lemma funcs_lift p : funcs (lift p) = p.
+Proof. unfold funcs, lift. rewrite map_map. cbn. apply map_id. Qed.
+
+Lemma nproducer_lift p o : nproducer (lift p) o = option_map prim (producer p o).
+Proof.
+  unfold nproducer, producer, lift. induction p as [|f p IH]; cbn; [reflexivity|].
+  destruct (mem_str o (outs f)); [reflexivity|]. exact IH.
+Qed.
+
+Lemma pos_str_nth o l : mem_str o l = true -> exists i, pos_str o l = Some i /\ nth i l [] = o.
+Proof.
+  induction l as [|x l IH]; cbn; [discriminate|]. destruct (str_eqb o x) eqn:E.
+  - intros _. exists 0. split; [reflexivity|]. apply str_eqb_eq in E. now subst.
+  - cbn. intros H. destruct (IH H) as (i & E1 & E2). exists (S i). rewrite E1. split; [reflexivity|exact E2].
+Qed.
+
+Section Lift.
+  Variable body : str -> alist -> result str.
+  Variable pick : str -> str -> str.
+
+  (* on pipelines without nested functions neval is Pipe.eval (the specification of C02) *)
+  Theorem neval_lift : forall fuel p kw o, neval body pick fuel (lift p) kw o = eval body pick fuel p kw o.
+  Proof.
+    induction fuel as [|n IH]; intros p kw o; [reflexivity|].
+    cbn [neval eval]. rewrite nproducer_lift. destruct (producer p o) as [f|] eqn:E; cbn [option_map]; [|reflexivity].
+    cbn [nf prim ninner]. rewrite funcs_lift.
+    assert (Ha : args_with (neval body pick n (lift p) kw) p kw f = args_with (eval body pick n p kw) p kw f).
+    { unfold args_with. apply mapM_ext. intros [cur orig] _. cbn [fst snd]. unfold arg_val.
+      destruct (aget (bound f) cur); [reflexivity|]. destruct (aget kw cur); [reflexivity|].
+      rewrite IH. reflexivity. }
+    rewrite Ha. destruct (args_with (eval body pick n p kw) p kw f); cbn [bind]; [|reflexivity].
+    destruct (body (fname f) a); cbn [bind]; [|reflexivity].
+    unfold route. destruct (multi f); [|reflexivity].
+    unfold producer in E. apply find_some in E as [_ Hm].
+    destruct (pos_str_nth o (outs f) Hm) as (i & E1 & E2).
+    unfold orig_out. cbn [nf prim noorig]. rewrite E1, E2. reflexivity.
+  Qed.
+End Lift.
+
+(* ------------------------------------------------------------------ more fuel never changes a value *)
+Lemma mapM_ok_mono {A B} (f g : A -> result B) l r :
+  mapM f l = Ok r -> (forall x y, In x l -> f x = Ok y -> g x = Ok y) -> mapM g l = Ok r.
+Proof.
+  revert r. induction l as [|x l IH]; intros r E H; cbn in *; [exact E|].
+  destruct (f x) as [y|] eqn:Ex; [|discriminate]. cbn in E.
+  destruct (mapM f l) as [ys|] eqn:El; [|discriminate]. cbn in E. injection E as <-.
+  rewrite (H x y (or_introl eq_refl) Ex). cbn. rewrite (IH ys eq_refl); [reflexivity|].
+  intros x0 y0 Hx0. apply H. right. exact Hx0.
+Qed.
+
+Section Mono.
+  Variable body : str -> alist -> result str.
+  Variable pick : str -> str -> str.
+
+  Lemma args_with_mono (rec rec' : str -> result str) P kw f args :
+    args_with rec P kw f = Ok args -> (forall c v, rec c = Ok v -> rec' c = Ok v) ->
+    args_with rec' P kw f = Ok args.
+  Proof.
+    unfold args_with. intros E H. eapply mapM_ok_mono; [exact E|].
+    intros [cur orig] y _. cbn [fst snd]. unfold arg_val.
+    destruct (aget (bound f) cur); [auto|]. destruct (aget kw cur); [auto|].
+    destruct (is_output P cur); [|auto].
+    destruct (rec cur) as [v|] eqn:Er; cbn [bind]; [|discriminate]. rewrite (H cur v Er). auto.
+  Qed.
+
+  Lemma neval_mono : forall n p kw o v, neval body pick n p kw o = Ok v ->
+    forall m, n <= m -> neval body pick m p kw o = Ok v.
+  Proof.
+    induction n as [|n IH]; intros p kw o v E m Hm; [discriminate|].
+    destruct m as [|m]; [lia|]. cbn [neval] in *.
+    destruct (nproducer p o) as [nd|]; [|discriminate].
+    destruct (args_with (neval body pick n p kw) (funcs p) kw (nf nd)) as [args|] eqn:Ea; cbn [bind] in E; [|discriminate].
+    rewrite (args_with_mono _ (neval body pick m p kw) _ _ _ _ Ea).
+    2:{ intros c v0 Hc. apply (IH p kw c v0 Hc). lia. }
+    cbn [bind]. destruct (ninner nd) as [inner|]; [|exact E].
+    apply (IH inner args _ v E). lia.
+  Qed.
+End Mono.
+
+(* ------------------------------------------------------------------ dotted keys vs nested dicts *)
+(* in-place expansion of the dicts whose key is one of the scopes sc *)
+Definition expand_entry (sc : list str) (kv : str * kval) : kwargs :=
+  if mem_str (fst kv) sc then
+    match snd kv with
+    | KD d => map (fun nv => (fst kv ++ dot :: fst nv, KV (snd nv))) d
+    | KV _ => [kv]
+    end
+  else [kv].
+Definition expand (sc : list str) (kw : kwargs) : kwargs := flat_map (expand_entry sc) kw.
+(* the flat keyword list a (partially nested) keyword set denotes *)
+Definition flat_of (kw : kwargs) : alist :=
+  flat_map (fun kv => match snd kv with
+                      | KV v => [(fst kv, v)]
+                      | KD d => map (fun nv => (fst kv ++ dot :: fst nv, snd nv)) d
+                      end) kw.
+(* every key that can ever appear: the raw keys and the dotted keys of the dict entries *)
+Definition all_keys (kw : kwargs) : list str :=
+  flat_map (fun kv => fst kv :: match snd kv with
+                                | KD d => map (fun nv => fst kv ++ dot :: fst nv) d
+                                | KV _ => []
+                                end) kw.
+
+Lemma kset_fresh (l : kwargs) k v : ~ In k (map fst l) -> kset l k v = l ++ [(k, v)].
+Proof.
+  induction l as [|[k' v'] l IH]; cbn; intros H; [reflexivity|].
+  destruct (str_eqb k k') eqn:E.
+  - apply str_eqb_eq in E. subst. exfalso. apply H. left. reflexivity.
+  - rewrite IH; [reflexivity|]. intros Hin. apply H. right. exact Hin.
+Qed.
+
+Lemma fold_kset_fresh (a l : kwargs) :
+  NoDup (map fst (a ++ l)) -> fold_left (fun a' kv => kset a' (fst kv) (snd kv)) l a = a ++ l.
+Proof.
+  revert a. induction l as [|[k v] l IH]; intros a H; cbn; [now rewrite app_nil_r|].
+  rewrite kset_fresh.
+  - rewrite IH; [now rewrite <- app_assoc|]. rewrite <- app_assoc. exact H.
+  - rewrite map_app in H. apply NoDup_remove_2 in H. intros Hin. apply H. apply in_or_app. left. exact Hin.
+Qed.
+
+Lemma nodup_app_l {A} (a b : list A) : NoDup (a ++ b) -> NoDup a.
+Proof. induction a as [|x a IH]; cbn; intros H; [constructor|]. inversion H; subst. constructor; [|auto]. intros Hin. apply H2. apply in_or_app. left. exact Hin. Qed.
+Lemma nodup_app_r {A} (a b : list A) : NoDup (a ++ b) -> NoDup b.
+Proof. induction a as [|x a IH]; cbn; intros H; [exact H|]. inversion H; subst. auto. Qed.
+Lemma nodup_app_disj {A} (a b : list A) x : NoDup (a ++ b) -> In x a -> ~ In x b.
+Proof.
+  induction a as [|y a IH]; cbn; intros H Hx; [destruct Hx|]. inversion H; subst. destruct Hx as [<-|Hx].
+  - intros Hin. apply H2. apply in_or_app. right. exact Hin.
+  - apply IH; assumption.
+Qed.
+Lemma nodup_app_intro {A} (a b : list A) : NoDup a -> NoDup b -> (forall x, In x a -> ~ In x b) -> NoDup (a ++ b).
+Proof.
+  induction a as [|x a IH]; cbn; intros Ha Hb H; [exact Hb|]. inversion Ha; subst. constructor.
+  - intros Hin. apply in_app_or in Hin as [Hin|Hin]; [contradiction|]. apply (H x (or_introl eq_refl)). exact Hin.
+  - apply IH; [assumption|assumption|]. intros y Hy. apply H. right. exact Hy.
+Qed.
+
+Definition entry_keys (kv : str * kval) : list str :=
+  fst kv :: match snd kv with KD d => map (fun nv => fst kv ++ dot :: fst nv) d | KV _ => [] end.
+Lemma all_keys_cons kv kw : all_keys (kv :: kw) = entry_keys kv ++ all_keys kw.
+Proof. reflexivity. Qed.
+Lemma all_keys_app a b : all_keys (a ++ b) = all_keys a ++ all_keys b.
+Proof. unfold all_keys. apply flat_map_app. Qed.
+Lemma expand_cons sc kv kw : expand sc (kv :: kw) = expand_entry sc kv ++ expand sc kw.
+Proof. reflexivity. Qed.
+Lemma flat_of_app a b : flat_of (a ++ b) = flat_of a ++ flat_of b.
+Proof. unfold flat_of. apply flat_map_app. Qed.
+
+Lemma flat_of_entry sc kv : flat_of (expand_entry sc kv) = flat_of [kv].
+Proof.
+  destruct kv as [k v]. unfold expand_entry. cbn [fst snd]. destruct (mem_str k sc); [|reflexivity].
+  destruct v as [v|d]; [reflexivity|]. unfold flat_of. cbn [flat_map fst snd]. rewrite app_nil_r.
+  induction d as [|[n x] d IHd]; cbn; [reflexivity|]. now rewrite IHd.
+Qed.
+
+Lemma flat_of_expand sc kw : flat_of (expand sc kw) = flat_of kw.
+Proof.
+  induction kw as [|kv kw IH]; [reflexivity|].
+  rewrite expand_cons, flat_of_app, IH, flat_of_entry. change (kv :: kw) with ([kv] ++ kw).
+  rewrite flat_of_app. reflexivity.
+Qed.
+
+(* the keys of an expanded entry are among the keys of the entry, without repetition if those have none *)
+Lemma entry_keys_expand sc kv :
+  incl (all_keys (expand_entry sc kv)) (entry_keys kv)
+  /\ (NoDup (entry_keys kv) -> NoDup (all_keys (expand_entry sc kv))).
+Proof.
+  destruct kv as [k v]. unfold expand_entry, entry_keys. cbn [fst snd]. destruct (mem_str k sc).
+  - destruct v as [v|d].
+    + cbn. split; [apply incl_refl|auto].
+    + match goal with |- context [all_keys ?t] =>
+        assert (E : all_keys t = map (fun nv : str * str => k ++ dot :: fst nv) d)
+      end.
+      { unfold all_keys. induction d as [|[n y] d IHd]; cbn [map flat_map fst snd app]; [reflexivity|].
+        f_equal. exact IHd. }
+      rewrite !E. split; [intros x Hx; right; exact Hx|]. intros H. inversion H; subst. assumption.
+  - rewrite all_keys_cons. cbn [all_keys flat_map]. rewrite app_nil_r. split; [apply incl_refl|auto].
+Qed.
+
+Lemma all_keys_expand_incl sc kw : incl (all_keys (expand sc kw)) (all_keys kw).
+Proof.
+  induction kw as [|kv kw IH]; [apply incl_refl|].
+  rewrite expand_cons, all_keys_app, all_keys_cons. intros x Hx. apply in_app_or in Hx as [Hx|Hx]; apply in_or_app.
+  - left. apply (proj1 (entry_keys_expand sc kv)). exact Hx.
+  - right. apply IH. exact Hx.
+Qed.
+
+Lemma all_keys_expand_nodup sc kw : NoDup (all_keys kw) -> NoDup (all_keys (expand sc kw)).
+Proof.
+  induction kw as [|kv kw IH]; intros H; [constructor|].
+  rewrite all_keys_cons in H. rewrite expand_cons, all_keys_app.
+  apply nodup_app_intro.
+  - apply (proj2 (entry_keys_expand sc kv)). eapply nodup_app_l; eauto.
+  - apply IH. eapply nodup_app_r; eauto.
+  - intros x Hx Hin. apply (nodup_app_disj _ _ x H).
+    + apply (proj1 (entry_keys_expand sc kv)). exact Hx.
+    + apply all_keys_expand_incl in Hin. exact Hin.
+Qed.
+
+Lemma map_fst_incl_all_keys kw : incl (map fst kw) (all_keys kw).
+Proof.
+  induction kw as [|kv kw IH]; [apply incl_refl|]. rewrite all_keys_cons. cbn [map].
+  intros x [<-|Hx]; [left; reflexivity|]. apply in_or_app. right. apply IH. exact Hx.
+Qed.
+
+Lemma nodup_map_fst kw : NoDup (all_keys kw) -> NoDup (map fst kw).
+Proof.
+  induction kw as [|kv kw IH]; intros H; [constructor|]. rewrite all_keys_cons in H. cbn [map].
+  constructor.
+  - intros Hin. apply (nodup_app_disj _ _ (fst kv) H); [left; reflexivity|]. apply map_fst_incl_all_keys. exact Hin.
+  - apply IH. eapply nodup_app_r; eauto.
+Qed.
+
+(* one function: PipeFunc._flatten_scopes expands in place exactly the dicts of its own scopes *)
+Lemma flatten1_expand f kw kw1 : flatten1 f kw = Ok kw1 -> NoDup (all_keys kw) -> kw1 = expand (param_scopes f) kw.
+Proof.
+  unfold flatten1. set (sc := param_scopes f). intros E Hnd.
+  destruct (negb (existsb (fun kv => mem_str (fst kv) sc) kw)) eqn:Eex.
+  - injection E as <-. apply negb_true_iff in Eex. clear Hnd.
+    induction kw as [|kv kw IH]; [reflexivity|]. cbn in Eex. apply orb_false_iff in Eex as [E1 E2].
+    rewrite expand_cons, <- (IH E2). unfold expand_entry. rewrite E1. reflexivity.
+  - clear Eex.
+    assert (G : forall l acc r,
+              fold_left (fun acc kv => do a <- acc;
+                                       if mem_str (fst kv) sc
+                                       then match snd kv with
+                                            | KD d => Ok (fold_left (fun a' nv => kset a' (fst kv ++ dot :: fst nv) (KV (snd nv))) d a)
+                                            | KV _ => Err AttributeError
+                                            end
+                                       else Ok (kset a (fst kv) (snd kv))) l (Ok acc) = Ok r ->
+              NoDup (map fst (acc ++ expand sc l)) -> r = acc ++ expand sc l).
+    { induction l as [|[k v] l IH]; intros acc r E1 H1; cbn in E1.
+      - injection E1 as <-. cbn. now rewrite app_nil_r.
+      - rewrite expand_cons in H1. rewrite expand_cons. unfold expand_entry in *. cbn [fst snd] in *.
+        destruct (mem_str k sc).
+        + destruct v as [v|d].
+          * exfalso. clear -E1. induction l as [|x l IHl]; cbn in E1; [discriminate|auto].
+          * set (e := map (fun nv : str * str => (k ++ dot :: fst nv, KV (snd nv))) d) in *.
+            assert (Ef : fold_left (fun a' nv => kset a' (k ++ dot :: fst nv) (KV (snd nv))) d acc = acc ++ e).
+            { assert (Hn : NoDup (map fst (acc ++ e))).
+              { pose proof H1 as H1'. rewrite app_assoc, map_app in H1'. apply nodup_app_l in H1'. exact H1'. }
+              clear -Hn. unfold e in *. clear e. revert acc Hn.
+              induction d as [|[n y] d IHd]; intros acc Hn; cbn; [now rewrite app_nil_r|].
+              rewrite kset_fresh.
+              - rewrite IHd; [now rewrite <- app_assoc|]. rewrite <- app_assoc. exact Hn.
+              - cbn in Hn. rewrite map_app in Hn. cbn in Hn. apply NoDup_remove_2 in Hn.
+                intros Hin. apply Hn. apply in_or_app. left. exact Hin. }
+            rewrite Ef in E1. rewrite (IH (acc ++ e) r E1); [now rewrite <- app_assoc|].
+            rewrite <- app_assoc. exact H1.
+        + rewrite kset_fresh in E1.
+          * rewrite (IH (acc ++ [(k, v)]) r E1); [now rewrite <- app_assoc|]. rewrite <- app_assoc. exact H1.
+          * rewrite map_app in H1. cbn in H1. apply NoDup_remove_2 in H1. intros Hin. apply H1. apply in_or_app. left. exact Hin. }
+    rewrite (G kw [] kw1 E); [reflexivity|]. cbn [app]. apply nodup_map_fst. apply all_keys_expand_nodup. exact Hnd.
+Qed.
+
+(* Pipeline._flatten_scopes: dicts are expanded in place, so the flat keyword list that the (partially nested)
+   keywords denote never changes: nested dicts and dotted keys are two spellings of the same request *)
+Theorem flatten_scopes_flat_of P : forall kw kw', flatten_scopes P kw = Ok kw' -> NoDup (all_keys kw) ->
+  flat_of kw' = flat_of kw /\ NoDup (all_keys kw').
+Proof.
+  unfold flatten_scopes. induction P as [|f P IH]; intros kw kw' E H; cbn in E.
+  - injection E as <-. auto.
+  - destruct (flatten1 f kw) as [kw1|] eqn:E1.
+    + pose proof (flatten1_expand f kw kw1 E1 H) as ->.
+      destruct (IH _ kw' E (all_keys_expand_nodup _ _ H)) as [A B]. split; [|exact B].
+      rewrite A. apply flat_of_expand.
+    + exfalso. clear -E. induction P as [|g P IHP]; cbn in E; [discriminate|auto].
+Qed.
+
+(* when no dict is left the flat keywords the run uses are exactly the denoted ones; a dotted request is left alone *)
+Lemma flat_vals_flat_of kw : forallb (fun kv => match snd kv with KV _ => true | KD _ => false end) kw = true ->
+  flat_vals kw = flat_of kw.
+Proof.
+  induction kw as [|[k [v|d]] kw IH]; cbn [forallb snd andb]; intros H; [reflexivity| |discriminate].
+  change (flat_vals ((k, KV v) :: kw)) with ((k, v) :: flat_vals kw).
+  change (flat_of ((k, KV v) :: kw)) with ((k, v) :: flat_of kw). f_equal. apply IH. exact H.
+Qed.
+Lemma flat_of_dotted kw : flat_of (dotted kw) = kw.
+Proof. unfold flat_of, dotted. induction kw as [|[k v] kw IH]; cbn; [reflexivity|]. now rewrite IH. Qed.
